@@ -139,9 +139,34 @@ class Opaque:
     def __init__(s, what): s.what = what
     def __repr__(s): return f"Opaque({s.what})"
 class ArgVal:
-    """opaque argument placeholder used when only the *shape* of a computation matters (key terms)"""
-    def __init__(s, name, ty): s.name = name; s.ty = ty
+    """argument placeholder used when only the *shape* of a computation matters (key terms).  Opaque until the code looks
+    inside: a tuple-typed placeholder unfolds into one placeholder per component, an Option-typed one into None / Some(inner)"""
+    def __init__(s, name, ty, parent=None): s.name = name; s.ty = ty; s._fields = None; s.shape = None; s.parent = parent; s.variant_ = None
     def __repr__(s): return f"<{s.name}: {s.ty}>"
+    def _bare(s): return re.sub(r"^&('\w+ )?(mut )?", '', s.ty.strip()).strip()
+    @property
+    def fields(s):
+        if s._fields is None:
+            t = s._bare()
+            if t.startswith('(') and t.endswith(')') and t != '()':
+                s._fields = [ArgVal(f'{s.name}.{i}', c.strip(), s) for i, c in enumerate(split_top(t[1:-1])) if c.strip()]; s.shape = 'tuple'
+            else: raise Unsupported(f'projection into the opaque argument {s.name}: {s.ty}')
+        return s._fields
+    def option_variant(s, ctx):
+        """discriminant of an Option-typed placeholder: both variants are explored"""
+        m = re.match(r'^(?:std::option::)?Option<(.*)>$', s._bare())
+        if not m: raise Unsupported(f'discriminant of {s!r}')
+        if s.variant_ is None:
+            b = ctx.fresh_bool('opt_' + re.sub(r'\W', '_', s.name))
+            s.variant_ = ctx.choose([z3.Not(b), b])
+            if s.variant_ == 1: s._fields = [ArgVal(s.name + '.some', m.group(1).strip(), s)]; s.shape = 'some'
+            else: s._fields = []; s.shape = 'none'
+        return s.variant_
+    def leaves(s):
+        """the placeholders a value of this argument consists of, given what the executed code unfolded"""
+        if s.shape in ('tuple', 'some'): return [l for c in s._fields for l in c.leaves()]
+        if s.shape == 'none': return []
+        return [s]
 
 
 class EnvFn:
@@ -618,6 +643,8 @@ class Interp:
                     continue        # pointer newtypes (Unique<T> / NonNull<T> inside Box): the wrapped pointer is the reference itself
                 if isinstance(cur, (Agg, Closure, Coroutine)):
                     while len(cur.fields) <= pr[1]: cur.fields.append(None)
+                elif isinstance(cur, ArgVal):
+                    if pr[1] >= len(cur.fields): raise Unsupported(f'field .{pr[1]} of the argument placeholder {cur!r} in {f.name}')     # .fields unfolds a tuple / Some(..) placeholder
                 else: raise Unsupported(f'field .{pr[1]} of {type(cur).__name__} in {f.name}')
                 path.append(pr[1])
             elif k == 'downcast':
@@ -770,6 +797,7 @@ class Interp:
         if k == 'discr':
             v = s.read(ctx, frame, f, rv[1])
             if isinstance(v, (Agg, Coroutine)): return v.variant
+            if isinstance(v, ArgVal): return v.option_variant(ctx)
             raise Unsupported(f'discriminant of {v!r}')
         if k == 'binop':
             ty = None
